@@ -300,12 +300,12 @@ def ts_docs(scratch, drive):
     d = scratch.sub("tsdocs")
     if os.listdir(d):
         return d
-    for fam in ("S", "C", "D"):
+    for fam in ("S", "C", "D", "A"):
         out = scratch.path("ttx.extra.%s.ndjson" % fam)
-        r = tlc(scratch, "GenTeletext", "GenTeletext.cfg", env=dict(GEN_FAM=fam, GEN_PART=0, GEN_PARTS=1 if fam == "D" else 4, GEN_OUT=out), heap="2g", timeout=900)
+        r = tlc(scratch, "GenTeletext", "GenTeletext.cfg", env=dict(GEN_FAM=fam, GEN_PART=0, GEN_PARTS=1 if fam in ("D", "A") else 4, GEN_OUT=out), heap="2g", timeout=900)
         require_ok(r, "GenTeletext (extra documents)")
         vlib.run_drive(drive, ["teletext", "-cases", out, "-out", scratch.path("ttx.extra.%s.trace" % fam), "-dump", d, "-n0", str(ord(fam))]
-                       + (["-dumpall"] if fam == "D" else []))
+                       + (["-dumpall"] if fam in ("D", "A") else []))
     return d
 
 
